@@ -1,9 +1,9 @@
 //go:build verif
 
 // C12 harness (in-package, injected with -overlay): drives the real types.ValidatorSet
-// (NewValidatorSet, IncrementProposerPriority, UpdateWithChangeSet, Copy, GetProposer,
-// TotalVotingPower) and the cstate path calculateValidatorSetUpdates + updateState with generated
-// histories, prints the projected observables for the model driver, and evaluates the property
+// (NewValidatorSet, IncrementProposerPriority, CopyIncrementProposerPriority, UpdateWithChangeSet, Copy,
+// GetProposer, TotalVotingPower) and the cstate path calculateValidatorSetUpdates + updateState (on single
+// sets and on one LatestBlockState carried from block to block) with generated histories, prints the projected observables for the model driver, and evaluates the property
 // directly on the implementation: a math/big re-implementation of the specified weighted
 // round-robin and of the change-set / report rules, atomicity on error, order independence,
 // priority window / centring, isolation, and fairness (proportional share, no starvation).
@@ -735,6 +735,20 @@ func (w *world) doUpdate(slot int, changes []vrec, kind string, ask bool) {
 			if tot.Cmp(big.NewInt(capTotal())) > 0 || tot.Cmp(big.NewInt(vs.TotalVotingPower())) != 0 {
 				w.o.Fail(w.step, "total", fmt.Sprintf("total=%s cached=%d", tot, vs.TotalVotingPower()))
 			}
+		}
+		// a set that has not run a round yet has no recorded proposer: GetProposer() must then name the
+		// validator with the highest priority, the lowest address on ties
+		if vs.Proposer == nil && len(after) > 0 {
+			best := after[0]
+			for _, v := range after {
+				if v.prio > best.prio || (v.prio == best.prio && v.id < best.id) {
+					best = v
+				}
+			}
+			if g := vs.Copy().GetProposer(); g == nil || idNum(g.Address) != best.id {
+				w.o.Fail(w.step, "spec-proposer", fmt.Sprintf("no round run yet: GetProposer() is not the validator with the highest priority (%d) in %s", best.id, recsStr(after)))
+			}
+			w.o.Count("proposer.unset-checked")
 		}
 		// all-or-nothing
 		if err != nil {
@@ -1822,6 +1836,16 @@ func runCase(o *c12Out, r *c12Rand, c int) {
 	if chainy {
 		w.doGenesis(0, ask())
 	}
+	if !fair && r.Chance(1, 10) {
+		// a set assembled by change sets alone (no round run, Proposer unset): priorities of old members
+		// and newcomers differ, GetProposer() has to find the highest
+		sl := 1 + r.Intn(nSlots-1)
+		w.doNew(sl, nil, false)
+		for i, k := 0, 2+r.Intn(3); i < k; i++ {
+			cs, nm := w.genChanges(w.current(sl))
+			w.doUpdate(sl, cs, nm, i == k-1 || r.Chance(1, 3))
+		}
+	}
 	steps := 5 + r.Intn(36)
 	if fair {
 		steps = 3 + r.Intn(4)
@@ -1893,6 +1917,9 @@ func runCase(o *c12Out, r *c12Rand, c int) {
 			k := pickTimes(r, !bigUsed && c%50 == 3)
 			if k > 5 {
 				bigUsed = true
+				if *c12Tier != "thorough" && len(cur) > 4 {
+					k = 1 << 12 // quick tier: the 2^16-round calls only on sets of up to four validators
+				}
 			}
 			if r.Chance(1, 60) {
 				k = -int64(r.Intn(2))
